@@ -632,6 +632,12 @@ func runC06(c *an.Ctx) {
 		}
 	}
 
+	c06BufferLifetime(c, "C06-R2")
+}
+
+// c06BufferLifetime is the use-after-Put / hand-over rule for pooled receive buffers.
+func c06BufferLifetime(c *an.Ctx, rule string) {
+	c06Retained(c, rule)
 	// R2: no use of a pooled []byte pointer after Put; a buffer captured by a
 	// submitted closure is only Put inside that closure or before the submit.
 	for _, fn := range c.AllFns {
@@ -658,19 +664,19 @@ func runC06(c *an.Ctx) {
 			c.Analysed(an.FnKey(fn))
 			_, isDefer := call.(*ssa.Defer)
 			if mc := escapingCapture(fn, x); mc != nil && (isDefer || an.CanReach(mc, call)) {
-				c.Bad("C06-R2", an.FnKey(fn)+" Put after hand-over", call.Pos(),
+				c.Bad(rule, an.FnKey(fn)+" Put after hand-over", call.Pos(),
 					"receive buffer captured by the asynchronous closure created at %s is returned to the pool by the creating function", c.Pos(mc.Pos()))
 				continue
 			}
 			if isDefer {
-				c.Ok("C06-R2", an.FnKey(fn)+" defer Put", call.Pos(), "deferred Put runs after every use in the function; the buffer is not handed to an asynchronous closure")
+				c.Ok(rule, an.FnKey(fn)+" defer Put", call.Pos(), "deferred Put runs after every use in the function; the buffer is not handed to an asynchronous closure")
 				continue
 			}
 			key := an.FnKey(fn) + " Put(" + x.Name() + ")"
 			if use := useAfter(c, call, x); use != nil {
-				c.Bad("C06-R2", key, call.Pos(), "receive buffer used at %s after being returned to the pool", c.Pos(use.Pos()))
+				c.Bad(rule, key, call.Pos(), "receive buffer used at %s after being returned to the pool", c.Pos(use.Pos()))
 			} else {
-				c.Ok("C06-R2", key, call.Pos(), "no use of the buffer is reachable after Put")
+				c.Ok(rule, key, call.Pos(), "no use of the buffer is reachable after Put")
 			}
 		}
 	}
@@ -806,4 +812,235 @@ func escapingCapture(fn *ssa.Function, x ssa.Value) *ssa.MakeClosure {
 		}
 	})
 	return res
+}
+
+// sliceDerivedFrom reports whether v is root or a reslice / conversion of it.
+func sliceDerivedFrom(v, root ssa.Value, depth int) bool {
+	if v == root {
+		return true
+	}
+	if depth > 8 {
+		return false
+	}
+	switch x := v.(type) {
+	case *ssa.Slice:
+		return sliceDerivedFrom(x.X, root, depth+1)
+	case *ssa.Phi:
+		for _, e := range x.Edges {
+			if sliceDerivedFrom(e, root, depth+1) {
+				return true
+			}
+		}
+	case *ssa.ChangeType:
+		return sliceDerivedFrom(x.X, root, depth+1)
+	}
+	return false
+}
+
+// c06Retained is the rule for receive buffers that outlive the reading function
+// inside an object: when a callee stores (a reslice of) the buffer into an
+// object it returns, the buffer may be given back to the pool by the reader only
+// on the callee's error path; the owner of the object returns it later.  It also
+// checks that no capacity-truncating (three-index) reslice is stored into a
+// field whose address is later handed to Pool.Put: the pool would hand out a
+// buffer that can no longer hold a full datagram.
+func c06Retained(c *an.Ctx, rule string) {
+	// callee summaries: slice parameters stored (resliced) into heap objects
+	retains := map[*ssa.Function]map[int]bool{}
+	for _, fn := range c.AllFns {
+		if fn.Blocks == nil || c.IsTestFile(fn.Pos()) {
+			continue
+		}
+		for i, pa := range fn.Params {
+			if _, isSlice := pa.Type().Underlying().(*types.Slice); !isSlice {
+				continue
+			}
+			an.Instrs(fn, func(in ssa.Instruction) {
+				st, ok := in.(*ssa.Store)
+				if !ok || !sliceDerivedFrom(st.Val, pa, 0) {
+					return
+				}
+				if fa, isField := st.Addr.(*ssa.FieldAddr); isField {
+					if al, isAlloc := fa.X.(*ssa.Alloc); !isAlloc || al.Heap {
+						if retains[fn] == nil {
+							retains[fn] = map[int]bool{}
+						}
+						retains[fn][i] = true
+					}
+				}
+			})
+		}
+	}
+	n := 0
+	for _, fn := range c.AllFns {
+		if fn.Blocks == nil || c.IsTestFile(fn.Pos()) || fn.Parent() != nil {
+			continue
+		}
+		pkg := an.FnPkg(fn)
+		if pkg == nil {
+			continue
+		}
+		pp := an.Short(pkg.Path())
+		if !(strings.HasPrefix(pp, "dnsserver") || strings.HasPrefix(pp, "bindtodevice")) {
+			continue
+		}
+		for _, get := range an.Calls(fn) {
+			gc, ok := get.(*ssa.Call)
+			if !ok || !isPoolGet(get) || !isByteSlicePtr(gc.Type()) {
+				continue
+			}
+			// the pointer values: the Get result, or loads of the local cell it is
+			// spilled into when a closure captures the variable
+			ptrs := map[ssa.Value]bool{gc: true}
+			var cell *ssa.Alloc
+			if gc.Referrers() != nil {
+				for _, r := range *gc.Referrers() {
+					if st, ok := r.(*ssa.Store); ok && st.Val == ssa.Value(gc) {
+						if al, ok := st.Addr.(*ssa.Alloc); ok {
+							cell = al
+							for _, rr := range *al.Referrers() {
+								if ld, ok := rr.(*ssa.UnOp); ok && ld.Op == token.MUL {
+									ptrs[ld] = true
+								}
+							}
+						}
+					}
+				}
+			}
+			// the buffer: loads of *ptr in this function
+			var bufs []ssa.Value
+			for p := range ptrs {
+				if p.Referrers() == nil {
+					continue
+				}
+				for _, r := range *p.Referrers() {
+					if ld, ok := r.(*ssa.UnOp); ok && ld.Op == token.MUL {
+						bufs = append(bufs, ld)
+					}
+				}
+			}
+			// calls that retain it
+			for _, ci := range an.Calls(fn) {
+				call, ok := ci.(*ssa.Call)
+				if !ok {
+					continue
+				}
+				callee := an.StaticCallee(call)
+				if callee == nil || retains[callee] == nil {
+					continue
+				}
+				retained := false
+				for i := range retains[callee] {
+					if i < len(call.Call.Args) {
+						for _, b := range bufs {
+							if sliceDerivedFrom(call.Call.Args[i], b, 0) {
+								retained = true
+							}
+						}
+					}
+				}
+				if !retained {
+					continue
+				}
+				n++
+				c.Analysed(an.FnKey(fn))
+				key := fmt.Sprintf("%s buffer kept by the result of %s", an.FnKey(fn), an.FnKey(callee))
+				// every Put of ptr in fn or its closures must be on the callee's error path
+				bad := ""
+				check := func(f *ssa.Function, isPtr func(ssa.Value) bool) {
+					for _, pc := range an.Calls(f) {
+						if !isPoolPut(pc) {
+							continue
+						}
+						args := pc.Common().Args
+						if !isPtr(args[len(args)-1]) {
+							continue
+						}
+						onErr := false
+						for _, e := range an.DominatingConds(pc.Block()) {
+							b, isBin := e.If.Cond.(*ssa.BinOp)
+							if !isBin || (b.Op != token.NEQ && b.Op != token.EQL) || (b.Op == token.NEQ) != e.Branch {
+								continue
+							}
+							var other ssa.Value
+							if an.IsNilConst(b.Y) {
+								other = b.X
+							} else if an.IsNilConst(b.X) {
+								other = b.Y
+							}
+							if other != nil && isErrorType(other.Type()) {
+								onErr = true
+							}
+						}
+						if !onErr {
+							bad = c.Pos(pc.Pos())
+						}
+					}
+				}
+				check(fn, func(v ssa.Value) bool { return ptrs[v] })
+				for _, cl := range fn.AnonFuncs {
+					// the closure sees the pointer (or its cell) as a free variable bound at its creation
+					for _, site := range c.Callers(cl) {
+						if site.Closure == nil {
+							continue
+						}
+						for bi, b := range site.Closure.Bindings {
+							if bi >= len(cl.FreeVars) {
+								continue
+							}
+							fv := cl.FreeVars[bi]
+							switch {
+							case b == ssa.Value(gc):
+								check(cl, func(v ssa.Value) bool { return v == ssa.Value(fv) })
+							case cell != nil && b == ssa.Value(cell):
+								check(cl, func(v ssa.Value) bool {
+									ld, ok := v.(*ssa.UnOp)
+									return ok && ld.Op == token.MUL && ld.X == ssa.Value(fv)
+								})
+							}
+						}
+					}
+				}
+				if bad != "" {
+					c.Bad(rule, key, call.Pos(), "the object returned by the callee keeps a slice of the pooled buffer, and the reader returns the buffer to the pool at %s also when the callee succeeded: the next datagram overwrites a message that has not been served yet", bad)
+				} else {
+					c.Ok(rule, key, call.Pos(), "the reader returns the buffer to the pool only on the callee's error path")
+				}
+			}
+		}
+	}
+	if n == 0 && (c.Config.GOOS == "" || c.Config.GOOS == "linux") {
+		// the bind-to-device listener exists on Linux only
+		c.Und(rule, "retained receive buffers", token.NoPos, "no receive buffer kept by a callee's result was found: the anchor (bindtodevice readUDP / readPacketSession) no longer resolves")
+	}
+	// three-index reslices stored into fields that are later Put
+	putFields := map[string]bool{}
+	for _, fn := range c.AllFns {
+		if fn.Blocks == nil || c.IsTestFile(fn.Pos()) {
+			continue
+		}
+		for _, pc := range an.Calls(fn) {
+			if !isPoolPut(pc) {
+				continue
+			}
+			args := pc.Common().Args
+			if t, f, _, ok := an.FieldOf(args[len(args)-1]); ok {
+				putFields[t+"."+f] = true
+			}
+		}
+	}
+	for tf := range putFields {
+		i := strings.LastIndex(tf, ".")
+		for _, fs := range c.FieldStores(tf[:i], tf[i+1:]) {
+			if c.IsTestFile(fs.Store.Pos()) {
+				continue
+			}
+			key := fmt.Sprintf("%s stores %s", an.FnKey(fs.In), tf)
+			if sl, ok := fs.Val.(*ssa.Slice); ok && sl.Max != nil {
+				c.Bad(rule, key, fs.Store.Pos(), "a capacity-truncating reslice of the receive buffer is stored in a field that is later returned to the pool: the pool hands out a buffer that cannot hold a longer datagram, which is then silently cut")
+			} else {
+				c.Ok(rule, key, fs.Store.Pos(), "the stored slice keeps the buffer's capacity")
+			}
+		}
+	}
 }
